@@ -72,7 +72,8 @@ pub fn separator_words(lang: usize) -> &'static [&'static str] {
 }
 
 const SENT_END: [&str; 10] = [". ", ".\n", ".  ", ". \t", "! ", "? ", "!\n", "?! ", "… ", "! "];
-const PUNCT_P: [&str; 24] = [
+const PUNCT_P: [&str; 28] = [
+    " - ", " -", " – ", " -- ",
     ",", ", ", " , ", ".", ". ", ";", "; ", ":", ": ", "!", "! ", "?", "…", " … ", " / ", "/", "(", ") (", " — ", "«", "» ", "%", " & ",
     "...",
 ];
@@ -453,7 +454,7 @@ impl Check for C10 {
     fn assumptions(&self) -> Vec<String> {
         vec![
             "separator words are admitted per language only if the interpreter itself says: apply/apply_decimal on a fresh builder is a non-Incomplete error, not linking, not a decimal separator, and not one of the French look-back triggers un/le/du/l'/numéro".into(),
-            "p is a non-empty run of non-alphanumeric characters with at least one non-space and neither '-' nor '\\'' (word characters for the tokenizer)".into(),
+            "p is a non-empty run of non-alphanumeric characters with at least one non-space; '-' and '\\'' only appear after a space (glued to a word they are word characters for the tokenizer)".into(),
             "the punctuation clause is only evaluated when X and Y alone are each one number covering all their tokens (checked with the real scanner)".into(),
             "weakest fit of the technique: a metamorphic relation on a pure function, claimed because its failure mode is leaked per-call session state".into(),
             "seeded sampling, not proof".into(),
